@@ -23,7 +23,7 @@
    implementation by tools/c01.py). *)
 From Coq Require Import List ZArith Bool Arith Lia.
 Import ListNotations.
-From QV Require Import Model.C01 Proofs.C01.
+From QV Require Import Model.C01 Proofs.C01 Proofs.C01_pred.
 
 Section Props.
 Variable C : Type.
@@ -213,41 +213,109 @@ Theorem C01_converter_refuses_wrong_type :
 Proof. exact conv_call_refuses. Qed.
 Print Assumptions C01_converter_refuses_wrong_type.
 
+(* ------------------------------------------ tidy-up and the predicates *)
+(* exact payloads: is0 / ceqb decide equality with 0 / equality *)
+Section Pred.
+Variable C : Type.
+Variable c0 : C.
+Variable is0 : C -> bool.
+Variable ceqb : C -> C -> bool.
+Variable tidy : C -> C.
+Hypothesis His0 : forall x, is0 x = true <-> x = c0.
+Hypothesis Hceq : forall a b, ceqb a b = true <-> a = b.
+Hypothesis Htidy0 : tidy c0 = c0.
+
+(* tidyup_dense (e806789): the returned matrix is the element-wise tidied
+   one; with inplace=False the argument is left unchanged, with inplace=True
+   the argument is the returned object *)
+Theorem C01_tidyup_dense : forall (d : dense C) inplace i j,
+  den_dense C c0 (fst (tidyup_dense C tidy d inplace)) i j = tidy (den_dense C c0 d i j) /\
+  (inplace = false -> snd (tidyup_dense C tidy d inplace) = d) /\
+  (inplace = true -> snd (tidyup_dense C tidy d inplace) = fst (tidyup_dense C tidy d inplace)).
+Proof. exact (tidyup_dense_ok C c0 tidy Htidy0). Qed.
+
+(* tidy-up does not depend on the format: the CSR kernel (which also drops
+   the entries that became 0) and the dense kernel give the same matrix *)
+Theorem C01_tidyup_formats_agree : forall (m : csr C) f ip1 ip2 i j, wf_csr C m ->
+  den_csr C c0 (fst (tidyup_csr C is0 tidy m ip1)) i j =
+  den_dense C c0 (fst (tidyup_dense C tidy (dense_from_csr C c0 f m) ip2)) i j /\
+  (ip1 = false -> snd (tidyup_csr C is0 tidy m ip1) = m).
+Proof.
+  intros m f ip1 ip2 i j W.
+  destruct (tidyup_csr_ok C c0 is0 tidy His0 Htidy0 m ip1 i j W) as [A B].
+  destruct (tidyup_dense_ok C c0 tidy Htidy0 (dense_from_csr C c0 f m) ip2 i j) as [D _].
+  split; [|exact B]. rewrite A, D. rewrite dense_from_csr_den by exact W. reflexivity.
+Qed.
+
+(* isdiag_csr (96e4de2) answers the question about the matrix, not about the
+   sparsity pattern: true iff every off-diagonal entry of the denoted matrix
+   is 0 - the predicate isdiag_dense evaluates *)
+Theorem C01_isdiag_csr_iff : forall (m : csr C), wf_csr C m ->
+  (isdiag_csr C is0 m = true <-> forall i j, i <> j -> den_csr C c0 m i j = c0).
+Proof. exact (isdiag_csr_iff C c0 is0 His0). Qed.
+
+(* isequal_dia (1930127) on cleaned operands (sorted distinct offsets, zeros
+   outside the matrix - the state clean_dia establishes): true iff the two
+   operands denote the same matrix; different shapes give false *)
+Theorem C01_isequal_dia_iff : forall (a b : dia C),
+  a_nr C a = a_nr C b -> a_nc C a = a_nc C b ->
+  zsorted C (a_diags C a) -> zsorted C (a_diags C b) ->
+  rows_len C (a_nc C a) (a_diags C a) -> rows_len C (a_nc C a) (a_diags C b) ->
+  cleaned C c0 a -> cleaned C c0 b ->
+  (isequal_dia C is0 ceqb a b = true <->
+   forall i j, den_dia C c0 a i j = den_dia C c0 b i j).
+Proof. exact (isequal_dia_iff C c0 is0 ceqb His0 Hceq). Qed.
+
+Theorem C01_isequal_dia_shape_guard : forall (a b : dia C),
+  (a_nr C a <> a_nr C b \/ a_nc C a <> a_nc C b) -> isequal_dia C is0 ceqb a b = false.
+Proof. exact (isequal_dia_shape_guard C is0 ceqb). Qed.
+End Pred.
+Print Assumptions C01_tidyup_dense.
+Print Assumptions C01_tidyup_formats_agree.
+Print Assumptions C01_isdiag_csr_iff.
+Print Assumptions C01_isequal_dia_iff.
+Print Assumptions C01_isequal_dia_shape_guard.
+
+(* the rules these three kernels followed before the fix commits, kept as
+   old_... definitions with the witnesses that used to refute the property *)
+Example C01_old_tidyup_dense_witness :
+  let d := mkD 1 2 false [(1, 0); (5, 0)]%Z in
+  fst (G_old_tidyup_dense 3 d false) = d /\ snd (G_old_tidyup_dense 3 d false) <> d /\
+  fst (G_tidyup_dense 3 d false) = mkD 1 2 false [(0, 0); (5, 0)]%Z /\
+  snd (G_tidyup_dense 3 d false) = d.
+Proof. vm_compute. repeat split; try reflexivity. intro H; discriminate H. Qed.
+
+Example C01_old_isequal_dia_witness :
+  let A := [(0, [(1, 0); (1, 0)]); (1, [(0, 0); (2, 0)])]%Z in
+  let B := [(0, [(1, 0); (1, 0)])]%Z in
+  G_old_isequal_dia_walk 3 A B = true /\ G_isequal_dia (mkA 2 2 A) (mkA 2 2 B) = false.
+Proof. vm_compute. split; reflexivity. Qed.
+
+Example C01_old_isdiag_csr_witness :
+  let m := G_csr_of_raw 2 2 [0; 1; 2] [1; 1] [(0, 0); (3, 0)]%Z in
+  G_old_isdiag_csr m = false /\ G_isdiag_csr m = true.
+Proof. vm_compute. split; reflexivity. Qed.
+
+(* non-vacuity of C01_isequal_dia_iff: two cleaned 2x3 operands with
+   different stored offsets (one stores an explicit zero diagonal) *)
+Example C01_nonvacuous_isequal_dia :
+  let a := mkA 2 3 [(-1, [(2, 0); (0, 0); (0, 0)]); (1, [(0, 0); (1, 1); (3, 0)])]%Z in
+  let b := mkA 2 3 [(-1, [(2, 0); (0, 0); (0, 0)]); (0, [(0, 0); (0, 0); (0, 0)]);
+                    (1, [(0, 0); (1, 1); (3, 0)])]%Z in
+  zsorted G (a_diags G a) /\ zsorted G (a_diags G b) /\
+  rows_len G 3 (a_diags G a) /\ rows_len G 3 (a_diags G b) /\
+  cleaned G g0 a /\ cleaned G g0 b /\ G_isequal_dia a b = true.
+Proof.
+  simpl. repeat split; try (intros e H; simpl in H; intuition (subst; simpl; lia)).
+  - intros d k Hin Hk Hout. simpl in Hin, Hk, Hout.
+    destruct Hin as [<-|[<-|[]]]; simpl in *;
+      destruct k as [|[|[|k]]]; try reflexivity; try lia.
+  - intros d k Hin Hk Hout. simpl in Hin, Hk, Hout.
+    destruct Hin as [<-|[<-|[<-|[]]]]; simpl in *;
+      destruct k as [|[|[|k]]]; try reflexivity; try lia.
+Qed.
+
 (* ------------------------------------------------- refuted on the model *)
-(* tidyup.pyx::tidyup_dense(inplace=False) returns the untouched copy and
-   tidies its argument instead; tidyup_csr returns the tidied copy *)
-Theorem C01_tidyup_dense_copy_refuted :
-  exists (d : Gdense) (tol : Z),
-    G_den_dense (fst (G_tidyup_dense tol d false)) 0 0 <>
-    G_den_csr (fst (G_tidyup_csr tol (G_csr_from_dense d) false)) 0 0
-    /\ snd (G_tidyup_dense tol d false) <> d.
-Proof.
-  exists (mkD 1 2 false [(1, 0); (5, 0)]%Z), 3%Z. vm_compute. split; intro H; discriminate H.
-Qed.
-Print Assumptions C01_tidyup_dense_copy_refuted.
-
-(* properties.pyx::isequal_dia stops when one operand runs out of diagonals *)
-Theorem C01_isequal_dia_refuted :
-  exists a b : Gdia, G_isequal_dia a b = true /\ G_den_dia a 0 1 <> G_den_dia b 0 1.
-Proof.
-  exists (mkA 2 2 [(0, [(1, 0); (1, 0)]); (1, [(0, 0); (2, 0)])]%Z),
-         (mkA 2 2 [(0, [(1, 0); (1, 0)])]%Z).
-  vm_compute. split; [reflexivity|intro H; discriminate H].
-Qed.
-Print Assumptions C01_isequal_dia_refuted.
-
-(* properties.pyx::isdiag_csr looks at the structure only: an explicitly
-   stored zero off the diagonal makes a diagonal matrix "not diagonal" *)
-Theorem C01_isdiag_csr_structural_zero_refuted :
-  exists m : Gcsr, G_isdiag_csr m = false /\
-    forall i j, i <> j -> G_den_csr m i j = g0.
-Proof.
-  exists (G_csr_of_raw 2 2 [0; 1; 2] [1; 1] [(0, 0); (3, 0)]%Z).
-  split; [vm_compute; reflexivity|].
-  intros [|[|i]] [|[|j]] H; try reflexivity; try (exfalso; apply H; reflexivity).
-Qed.
-Print Assumptions C01_isdiag_csr_structural_zero_refuted.
-
 (* a Dia holding one offset twice: Dia.to_array / dense.from_dia keep the
    last stored diagonal, csr.from_dia (and clean_dia, SciPy) add them *)
 Theorem C01_dia_duplicate_offsets_refuted :
